@@ -1,7 +1,8 @@
 (* C20 - the access table covers the writes found in the current source (and nothing in the tied rows is invented).
-   If this file stops compiling, some exported entry point of sm2 / sm3 / sm4 / x509 / gmtls (Config, cache, loaders)
-   now writes shared state that the access table does not know under these locks, or no longer performs a write the
-   table lists: compare coq/Gen/ConcWriteSets.v with coq/Conc/AccessTable.v. *)
+   If this file stops compiling, some exported entry point of sm2 / sm3 / sm4 / x509 / gmtls (Config, cache, loaders,
+   Conn) now writes shared state that the access table does not know under these locks, or no longer performs a write
+   the table lists, or calls through a function value / interface that is not on the reviewed list: compare
+   coq/Gen/ConcWriteSets.v with coq/Conc/AccessTable.v and Conc/SourceTie.v. *)
 From Coq Require Import List Arith Bool String.
 From GmsmVerif Require Import Conc.AccessModel Conc.AccessTable Conc.SourceTie Gen.ConcWriteSets.
 Import ListNotations.
@@ -16,4 +17,20 @@ Lemma covers_spec : forall e ws w, In (e, ws) gen_write_sets -> In w ws -> cover
 Proof.
   intros e ws w He Hw. pose proof covers_true as H. unfold covers in H.
   rewrite forallb_forall in H. specialize (H _ He). simpl in H. rewrite forallb_forall in H. exact (H _ Hw).
+Qed.
+
+Lemma unattributed_ok_true : unattributed_ok = true.
+Proof. vm_compute. reflexivity. Qed.
+
+Lemma str_subset_spec : forall a b x, str_subset a b = true -> In x a -> In x b.
+Proof.
+  intros a b x H Hx. unfold str_subset in H. rewrite forallb_forall in H. specialize (H _ Hx).
+  apply existsb_exists in H. destruct H as [y [Hy E]]. apply String.eqb_eq in E. subst. exact Hy.
+Qed.
+
+Lemma unattributed_spec :
+  (forall x, In x gen_unattributed -> In x allowed_unattributed) /\ (forall x, In x gen_excluded -> In x allowed_excluded).
+Proof.
+  pose proof unattributed_ok_true as H. unfold unattributed_ok in H. apply andb_true_iff in H. destruct H as [A B].
+  split; intros x Hx; [exact (str_subset_spec _ _ _ A Hx) | exact (str_subset_spec _ _ _ B Hx)].
 Qed.
